@@ -566,6 +566,13 @@ func (k Keeper) LimitOrderBid(ctx sdk.Context) error {
 							k.DeleteUserLimitBidData(ctx, auction.DebtAssetId, auction.CollateralAssetId, premiumPerc.TruncateInt(), individualBids.BidderAddress)
 
 							k.UpdateUserLimitBidDataForAddress(ctx, individualBids, false)
+							// the whole deposit was consumed: it also leaves the recorded total of limit bids
+							protocolData, _ := k.GetLimitBidProtocolDataByAssetID(ctx, auction.DebtAssetId, auction.CollateralAssetId)
+							protocolData.BidValue = protocolData.BidValue.Sub(auction.DebtToken.Amount)
+							err = k.SetLimitBidProtocolData(ctx, protocolData)
+							if err != nil {
+								return err
+							}
 							return nil
 						}
 						individualBids.DebtToken.Amount = individualBids.DebtToken.Amount.Sub(auction.DebtToken.Amount)
